@@ -31,7 +31,21 @@ fn main() {
     // newton / muller on a polynomial with separated roots
     let p: Polynomial<f64> = Polynomial::from_slice(&[1.0, -6.0, 11.0, -6.0]); // (x-1)(x-2)(x-3)
     if let Ok(z) = newton_polynomial(2.9, &p, 1e-10, 100) { if (z - 3.0).abs() > 1e-6 { found.push(format!("newton_polynomial from 2.9 returned {z}")); } } else { found.push("newton_polynomial failed".into()); }
-    if let Ok(z) = muller_polynomial((0.0, 0.5, 0.8), &p, 1e-10, 200) { if p.evaluate(z.re).abs() > 1e-6 && z.im.abs() < 1e-6 { found.push(format!("muller returned {z}")); } }
+    // Muller: real and complex roots, several starting triples; an Ok result must be a root (residual evaluated by Horner in complex arithmetic)
+    for (name, coef) in [("(x-1)(x-2)(x-3)", vec![1.0, -6.0, 11.0, -6.0]), ("x^2+1", vec![1.0, 0.0, 1.0]), ("x^3-1", vec![1.0, 0.0, 0.0, -1.0]),
+                         ("x^4+4", vec![1.0, 0.0, 0.0, 0.0, 4.0]), ("2x^2-3x-5", vec![2.0, -3.0, -5.0])] {
+        let q: Polynomial<f64> = Polynomial::from_slice(&coef);
+        for start in [(0.0, 0.5, 0.8), (-1.0, -0.5, 0.25), (2.5, 3.5, 4.0), (0.1, 0.2, 0.4)] {
+            match muller_polynomial(start, &q, 1e-10, 500) {
+                Ok(z) => {
+                    let mut v = nalgebra::Complex::new(0.0, 0.0);
+                    for c in &coef { v = v * z + nalgebra::Complex::new(*c, 0.0); }
+                    if !(v.norm() <= 1e-6 * (1.0 + z.norm().powi(coef.len() as i32))) { found.push(format!("muller on {name} from {start:?} returned {z}, residual {:e}", v.norm())); }
+                }
+                Err(e) => found.push(format!("muller on {name} from {start:?}: Err({e})")),
+            }
+        }
+    }
     found.truncate(12);
     println!("{{\"found\": {}, \"failures\": {:?}}}", !found.is_empty(), found);
     std::process::exit(if found.is_empty() { 0 } else { 1 });
